@@ -19,7 +19,7 @@ def real_models(tier, seed):
     from cassandra.cqlengine import operators as ops
     from cassandra import cqltypes
     rng = random.Random(seed)
-    fails, n = [], 0
+    fails, n, seen = [], 0, set()
     kinds = [('Integer', columns.Integer, cqltypes.Int32Type, lambda: rng.randrange(-2 ** 31, 2 ** 31)), ('BigInt', columns.BigInt, cqltypes.LongType, lambda: rng.randrange(-2 ** 63, 2 ** 63)),
              ('Text', columns.Text, cqltypes.UTF8Type, lambda: rng.choice(['', 'a', 'é', 'key-%d' % rng.randrange(1000)])), ('UUID', columns.UUID, cqltypes.UUIDType, lambda: uuid.UUID(int=rng.getrandbits(128))),
              ('SmallInt', columns.SmallInt, cqltypes.ShortType, lambda: rng.randrange(-2 ** 15, 2 ** 15)), ('Boolean', columns.Boolean, cqltypes.BooleanType, lambda: rng.random() < 0.5)]
@@ -57,6 +57,7 @@ def real_models(tier, seed):
                 order = [i for i, _ in pcols]
                 rng.shuffle(order)
                 where = [st.WhereClause('k%d' % i, ops.EqualsOperator(), M._columns['k%d' % i].to_database(vals[i])) for i in order]
+                seen.add((''.join(shape), tuple(p[0] for p in picks), repr(sorted(vals.items()))))
                 for stmt in (st.SelectStatement('ks.t', where=where), st.UpdateStatement('ks.t', assignments=[st.AssignmentClause('v', 1)], where=where), st.DeleteStatement('ks.t', where=where)):
                     n += 1
                     sent.clear()
@@ -78,8 +79,8 @@ def real_models(tier, seed):
                 break
     finally:
         query.conn = old
-    return {'name': 'real-models-routing-keys', 'kind': 'bounded', 'cases': n, 'evaluations': n, 'distinct_nontrivial': n,
-            'rule': 'statement.routing_key == composite(core_serialize(partition key values in declaration order)) through the real ModelMetaClass and _execute_statement',
+    return {'name': 'real-models-routing-keys', 'kind': 'bounded', 'cases': n, 'evaluations': n, 'distinct_nontrivial': len(seen), 'samples': [list(map(str, x)) for x in sorted(seen)[:2]],
+            'rule': 'distinct = distinct (key shape, column types, key values) models; statement.routing_key == composite(core_serialize(partition key values in declaration order)) through the real ModelMetaClass and _execute_statement',
             'bound': 'every declaration order of up to 4 key columns (P/C), %d random type assignments each from 6 key-capable column types, random values, shuffled filter order, SELECT/UPDATE/DELETE' % (3 if tier == 'quick' else 30),
             'violations': fails[:3]}
 
